@@ -158,3 +158,104 @@ def _(v):
         v.prove_identity("lin.stored_constants_mode_uses_all_initial_concentrations_key%d" % keys[c], f3[nr + c] + 0.0, sum(B[c][j] * (y[j] - y0b[j]) for j in range(len(subs))) + 0.0)
     for i in range(nr):
         v.prove_identity("lin.stored_constants_mode_equil_%d" % i, f3[i], spec_Q(eqs, conc, i) / Ks[i] - 1)
+
+
+def _exact_equilibrium(name):
+    """a consistent set of constants and an exact equilibrium state of the named system, with an initial state linked to it by reaction extents"""
+    from fractions import Fraction as Fr
+    subs, eqs = systems()[name]
+    y = dict(zip(subs, [Fr(3, 2), Fr(1, 4), Fr(2, 5), Fr(7, 10), Fr(9, 8)]))
+    Ks = [spec_Q(eqs, y, i) for i in range(len(eqs))]
+    xi = [Fr(1, 10), Fr(-1, 20), Fr(1, 50)][:len(eqs)]
+    y0 = dict(y)
+    for (r, p), x in zip(eqs, xi):          # y = y0 + sum_i xi_i nu_i   <=>   y0 = y - sum_i xi_i nu_i
+        for k, n in p.items():
+            y0[k] -= x * n
+        for k, n in r.items():
+            y0[k] += x * n
+    assert all(val > 0 for val in y0.values())
+    return subs, eqs, y, y0, Ks
+
+
+def _rref(name, known_dependent):
+    @harness("C07", "row_reduced_configurations." + name, functions=[EQ + ":NumSysLin.f", EQ + ":NumSysLog.f", EQ + ":NumSysSquare.f", EQ + ":_NumSys._get_A_ks", "chempy.equilibria:EqSystem.stoichs_constants",
+                                                                     "pyneqsys.symbolic:linear_rref / linear_exprs (external, run natively)"], kind="data")
+    def _(v):
+        """'with or without row-reduction of the equilibrium or conservation blocks': every configuration, built the way the root finder builds it
+        (sympy backend, symbolic parameters), evaluated at an exact equilibrium state reached from the initial state by reaction extents: every
+        residual is zero; at a state with one concentration changed some residual is not; the number of equations is reactions + conservation
+        relations (independent ones when row-reduced)"""
+        import itertools
+        import sympy
+        from chempy.chemistry import Equilibrium, Species
+        from chempy.equilibria import EqSystem
+        from chempy import _eqsys as E
+        from collections import OrderedDict
+        subs, eqs, y, y0, Ks = _exact_equilibrium(name)
+        es = EqSystem([Equilibrium(r, p, K) for (r, p), K in zip(eqs, Ks)], OrderedDict((k, Species.from_formula(k)) for k in subs))
+        B, keys = es.composition_balance_vectors()
+        rankB = sympy.Matrix(B).rank()
+        ys = sympy.symbols("y:%d" % len(subs))
+        ps = sympy.symbols("p:%d" % (len(subs) + len(eqs)))
+        bind_p = dict(zip(ps, [sympy.Rational(y0[s].numerator, y0[s].denominator) for s in subs] + [sympy.Rational(K.numerator, K.denominator) for K in Ks]))
+        R = lambda q: sympy.Rational(q.numerator, q.denominator)
+        transforms = {"NumSysLin": lambda c: R(c), "NumSysLog": lambda c: sympy.log(R(c)), "NumSysSquare": lambda c: sympy.sqrt(R(c))}
+        for cls_name, re_, rp in itertools.product(("NumSysLin", "NumSysLog", "NumSysSquare"), (False, True), (False, True)):
+            tag = "%s.rref_equil_%s.rref_preserv_%s" % (cls_name, re_, rp)
+            ns = getattr(E, cls_name)(es, backend=sympy, rref_equil=re_, rref_preserv=rp)
+            try:
+                f = list(ns.f(ys, ps))
+            except Exception as ex:
+                v.fail(tag + ".builds", repr(ex)[:200])
+                continue
+            at_eq = dict(zip(ys, [transforms[cls_name](y[s]) for s in subs]))
+            vals = [sympy.simplify(sympy.expand_log(e.subs(bind_p).subs(at_eq), force=True)) for e in f]
+            n_cons = rankB if rp else len(keys)
+            n_eq = sympy.Matrix(es.stoichs()).rank() if re_ else len(eqs)
+            v.prove(tag + ".number_of_equations", len(f) == n_eq + n_cons, detail="%d equations, expected %d + %d" % (len(f), n_eq, n_cons))
+            v.prove(tag + ".vanishes_at_the_equilibrium_state", all(abs(complex(sympy.N(x, 30))) < 1e-20 for x in vals), detail=str([str(sympy.N(x, 6)) for x in vals]))
+            off = dict(y)
+            off[subs[1]] = off[subs[1]] * 2
+            at_off = dict(zip(ys, [transforms[cls_name](off[s]) for s in subs]))
+            vals_off = [sympy.N(e.subs(bind_p).subs(at_off), 30) for e in f]
+            v.prove(tag + ".nonzero_off_equilibrium", any(abs(complex(x)) > 1e-6 for x in vals_off))
+    return _
+
+
+_rref("ammonia", False)
+_rref("complex", True)
+
+
+@harness("C07", "batches_and_repeated_evaluation", functions=["chempy.chemistry:equilibrium_quotient", "chempy.equilibria:EqSystem.equilibrium_quotients", "chempy.equilibria:EqSystem.stoichs_constants"], kind="data")
+def _(v):
+    """a batch of states (2-D array, one state per row) gives the quotient of each state, also when the number of states equals the number of
+    substances; the row-reduced constants are those of the constants handed in at THIS call (same system evaluated at two temperatures)"""
+    import math
+    import numpy as np
+    from chempy.chemistry import equilibrium_quotient, Equilibrium, Species
+    from chempy.equilibria import EqSystem
+    from collections import OrderedDict
+    nu = [-1, 2, 1]
+    batch = np.array([[2.0, 3.0, 5.0], [7.0, 0.5, 4.0], [1.5, 6.0, 0.25]])          # square on purpose
+    want = [row[0] ** -1 * row[1] ** 2 * row[2] for row in batch]
+    got = equilibrium_quotient(batch, nu)
+    v.prove("square_batch_row_by_row", np.allclose(got, want, rtol=1e-14, atol=0) and np.allclose([equilibrium_quotient(row, nu) for row in batch], want, rtol=1e-14, atol=0), detail=repr(got))
+    wide = np.array([[2.0, 3.0, 5.0], [7.0, 0.5, 4.0]])
+    v.prove("non_square_batch_row_by_row", np.allclose(equilibrium_quotient(wide, nu), want[:2], rtol=1e-14, atol=0))
+    subs, eqs = systems()["ammonia"]
+    es = EqSystem([Equilibrium(r, p, K) for (r, p), K in zip(eqs, [1e-14 / 55.5, 5.6e-10])], OrderedDict((k, Species.from_formula(k)) for k in subs))
+    sq = np.array([[55.5, 1e-7, 1e-7, 1e-3, 1e-3], [55.4, 2e-7, 3e-7, 2e-3, 1e-3], [50.0, 1e-6, 1e-8, 5e-3, 4e-3], [55.5, 1e-3, 1e-11, 1e-2, 1e-9], [40.0, 3e-7, 3e-7, 1e-4, 2e-3]])
+    qs = es.equilibrium_quotients(sq)
+    ok = all(np.allclose(qs[0], sq[:, 1] * sq[:, 2] / sq[:, 0], rtol=1e-13, atol=0) for _ in [0]) and np.allclose(qs[1], sq[:, 4] * sq[:, 1] / sq[:, 3], rtol=1e-13, atol=0)
+    v.prove("system_quotients_of_as_many_states_as_substances", ok, detail=repr(qs))
+    A1, k1 = es.stoichs_constants(eq_params=[2.0, 3.0], rref=True, backend=math)
+    A2, k2 = es.stoichs_constants(eq_params=[5.0, 7.0], rref=True, backend=math)
+    plain1 = es.stoichs_constants(eq_params=[2.0, 3.0])[1]
+
+    def consistent(A, ks, Ks):
+        # the reduced system (A', k') must be implied by the original one: for every state with Q_i = K_i, prod c^A'_j = k'_j.  Check on exact solutions
+        # c parametrised by two free log-concentrations: here simply that log k' = M log K with the same row operations M as A' = M A
+        A0 = np.array(es.stoichs(), dtype=float)
+        M = np.linalg.lstsq(A0.T, np.array(A, dtype=float).T, rcond=None)[0].T
+        return np.allclose(M.dot(A0), np.array(A, dtype=float), atol=1e-12) and np.allclose(M.dot(np.log(Ks)), np.log(np.array(ks, dtype=float)), atol=1e-12)
+    v.prove("reduced_constants_follow_the_constants_given", consistent(A1, k1, [2.0, 3.0]) and consistent(A2, k2, [5.0, 7.0]) and list(plain1) == [2.0, 3.0], detail="%r %r" % (k1, k2))
